@@ -29,13 +29,15 @@ LEVEL_RULE = (
     "probe; substitution raising inside substitute() and adjoint forward pass raising inside AdjointTape, each caught "
     "k blocks up for every k>=0) is executed by replaying representative-history+event from a clean slate; "
     "phase B: every well-nested event sequence of the stated length over the reduced alphabet, un-merged; "
-    "phase C: overflow chains. A case is non-trivial when its last event changes the stack, probes under >=1 open "
+    "phase C: overflow chains; phase D: one tape instance entered, left and entered again under another stack. A case is non-trivial when its last event changes the stack, probes under >=1 open "
     "block, or makes the library raise through its own temporary pushes; distinct = distinct event sequence"
 )
 ASSUMPTIONS = [
     "numpy backend; FUNSOR_DEBUG/PROFILE/TYPECHECK off; single thread",
-    "memoize() and AdjointTape are created fresh per entry (re-entering one AdjointTape object while it is active "
-    "is outside the alphabet: it overwrites its own saved outer interpretation)",
+    "memoize() and the symbol `tape` are created fresh per entry; the symbol `T0` is ONE AdjointTape instance per "
+    "history that is re-entered sequentially (phases B and D); re-entering a tape object while it is still active "
+    "is outside the alphabet (it overwrites its own saved outer interpretation); the user-defined partial "
+    "interpretations A and B are single objects re-entered freely, also nested in themselves",
     "a decorator entry means: decorator object created and function decorated at the base state before the history "
     "starts, function called at the event's position",
     "the reference fv.ref.stack (list + documented composition of eager/lazy/normalize/sequential/moment_matching) "
@@ -49,7 +51,7 @@ ASSUMPTIONS = [
     "canonicalisation by stack contents is tested, not assumed, by phase B",
 ]
 
-REDUCED = ("lazy", "A", "memo", "tape")
+REDUCED = ("lazy", "A", "memo", "T0")  # T0 while inactive, a fresh tape in its place while T0 is active
 _CHAIN_BASES = (None, "lazy", "reflect", "normalize", "sequential", "moment_matching", "memo", "tape")
 _CHAIN_PATTERNS = ("A", "B", "AB", "tape-first", "tape-last")
 
@@ -63,6 +65,10 @@ def bounds(tier):
         "unmerged_alphabet": list(REDUCED),
         "unmerged_length": 6 if thorough else 5,
         "unmerged_internal_k": [0],
+        "tape_reentry": "one AdjointTape instance T0 per history: entered under every stack X of depth <= %d, left "
+        "(normally / by exception), entered again (with / deco) under every stack Y of depth <= 2, then probe, "
+        "subst, exit, probe; T0 is also a symbol of the un-merged alphabet (enabled while inactive; a fresh tape "
+        "takes its place while T0 is active)" % (2 if thorough else 1),
         "overflow_chain_bases": [b or "(default eager)" for b in _CHAIN_BASES],
         "overflow_chain_patterns": list(_CHAIN_PATTERNS),
         "overflow_followups": "every enabled event after the failed entry (failed entry as with and as decorator)"
@@ -311,6 +317,7 @@ class Exec:
         self.frames = {}
         self.pre = {}
         self.final = None
+        self.T0 = G.AdjointTape()  # the persistent tape instance of this history
 
     # -- helpers ------------------------------------------------------------------------------------------------
 
@@ -323,6 +330,9 @@ class Exec:
             return G.fi.memoize()
         if sym == "tape":
             return G.AdjointTape()
+        if sym == ref.PERSISTENT_TAPE:
+            assert not any(s is self.T0 for h in G.STACK for s in h.subinterpretations), "ill-formed: T0 is active"
+            return self.T0
         return G.OBJ[sym]
 
     def prepare(self):
@@ -738,6 +748,7 @@ t1 = Tensor(np.array([1.0, 2.0, 3.0]), OrderedDict(i=Bint[3]))
 t2 = Tensor(np.array([4.0, 5.0, 6.0]), OrderedDict(i=Bint[3]))
 x, y = Variable("x", Real), Variable("y", Real)
 bomb, one = Bomb("z"), Number(1.0)
+T0 = AdjointTape()  # one tape instance, re-entered sequentially
 with reflect:
     lazy_sub = Subs(bomb, (("z", one),))
 
@@ -759,7 +770,7 @@ def probe(where, expected):
 assert interpreter._STACK[0] is reflect and interpreter._STACK[1] is eager and len(interpreter._STACK) == 2
 '''
 
-_CM_SRC = {"memo": "memoize()", "tape": "AdjointTape()"}
+_CM_SRC = {"memo": "memoize()", "tape": "AdjointTape()", "T0": "T0"}
 
 
 def snippet(events):
@@ -873,7 +884,7 @@ def rep_history(canon):
     """Representative history of a canonical state: its interpretations entered in order, the style (with-block or
     decorator) alternating by position and symbol so that replayed prefixes mix both."""
     return tuple(
-        ("with" if (i + ref.SYMBOLS.index(s)) % 2 == 0 else "deco", s) for i, s in enumerate(canon)
+        ("with" if (i + ref.ALL_SYMBOLS.index(s)) % 2 == 0 else "deco", s) for i, s in enumerate(canon)
     )
 
 
@@ -938,7 +949,7 @@ def bfs(symbols, max_depth, roots, stop_depth, internal_ks, report, stats, phase
         stats.states.add(canon)
         stats.max_depth = max(stats.max_depth, depth)
         hist = rep_history(canon)
-        for e in ref.menu(depth, symbols, max_depth, internal_ks):
+        for e in ref.menu(depth, symbols, max_depth, internal_ks, canon):
             events = hist + (e,)
             x = run(events, record=want_table)
             stats.transitions += 1
@@ -978,17 +989,22 @@ def sequences(symbols, length, prefix, internal_ks):
     """All well-nested event sequences of exactly ``length`` events that start with ``prefix`` (depth-first,
     menu order).  Well-nestedness needs only the number of open blocks; overflow cannot occur at these lengths."""
 
-    def rec(seq, d):
+    def step(stack, e):
+        if e[0] in ("with", "deco"):
+            return stack + (e[1],)
+        return stack[: _depth_step(len(stack), e)]
+
+    def rec(seq, stack):
         if len(seq) == length:
             yield seq
             return
-        for e in ref.menu(d, symbols, length, internal_ks):
-            yield from rec(seq + (e,), _depth_step(d, e))
+        for e in ref.menu(len(stack), symbols, length, internal_ks, stack):
+            yield from rec(seq + (e,), step(stack, e))
 
-    d0 = 0
+    st0 = ()
     for e in prefix:
-        d0 = _depth_step(d0, e)
-    yield from rec(tuple(prefix), d0)
+        st0 = step(st0, e)
+    yield from rec(tuple(prefix), st0)
 
 
 _MTABLE = {}  # transition table of the merged search over the reduced alphabet; inherited by the phase-B workers
@@ -1063,6 +1079,37 @@ def chain_histories(tier):
 
 
 # ---------------------------------------------------------------------------------------------------------------
+# phase D / sequential re-entry of one tape instance under a different enclosing interpretation
+
+
+def _stacks(symbols, max_depth):
+    out = [()]
+    level = [()]
+    for _ in range(max_depth):
+        level = [s + (x,) for s in level for x in symbols]
+        out += level
+    return out
+
+
+def reentry_histories(tier):
+    """enter X..., with T0, probe, leave everything (normally / by one exception caught at the base),
+    enter Y..., enter T0 again (with / deco), probe, subst: T0 must now sit over Y, not over X."""
+    first = _stacks(ref.SYMBOLS, 2 if tier == "thorough" else 1)
+    second = _stacks(ref.SYMBOLS, 2)
+    out = []
+    for X in first:
+        for leave in ("exit", "raise"):
+            pre = tuple(("with" if i % 2 == 0 else "deco", x) for i, x in enumerate(X))
+            pre += (("with", "T0"), ("probe",))
+            pre += (("exit",),) * (len(X) + 1) if leave == "exit" else (("raise", len(X) + 1),)
+            for Y in second:
+                mid = tuple(("deco" if i % 2 == 0 else "with", y) for i, y in enumerate(Y))
+                for style in ("with", "deco"):
+                    out.append(pre + mid + ((style, "T0"), ("probe",), ("subst", 0), ("exit",), ("probe",)))
+    return out
+
+
+# ---------------------------------------------------------------------------------------------------------------
 # orchestration
 
 
@@ -1079,7 +1126,7 @@ def _work(job):
             _, _, _, symbols, length, prefix, internal_ks = job
             unmerged_unit(symbols, length, prefix, internal_ks, rep, stats)
             stats.table = set(stats.table)
-        elif kind == "chains":
+        elif kind in ("chains", "reentry"):
             _, _, _, hists = job
             for h in hists:
                 x = run(h)
@@ -1088,7 +1135,7 @@ def _work(job):
                 if x.failure is None:
                     stats.states.add(x.final[0])
                     stats.max_depth = max(stats.max_depth, len(x.final[0]))
-                rep.add(outcome(x, h, "C"))
+                rep.add(outcome(x, h, "C" if kind == "chains" else "D"))
     finally:
         restore_base()
     return rep, stats.payload()
@@ -1235,13 +1282,19 @@ def explore(tier, seed, report):
             c.states |= pay["states"]
             c.max_depth = max(c.max_depth, pay["max_depth"])
             c.executions += pay["executions"]
+        # phase D
+        hists = reentry_histories(tier)
+        d = Stats()
+        for rep, pay in _map(pool, [("reentry", tier, seed, hists[i::n]) for i in range(n) if hists[i::n]]):
+            report.merge(rep)
+            d.executions += pay["executions"]
     finally:
         _close(pool)
         restore_base()
     _STATS.update(
         {
             "states": len(a["states"] | c.states),
-            "transitions": a["transitions"] + c.executions,
+            "transitions": a["transitions"] + c.executions + d.executions,
             "max_depth": max(a["max_depth"], c.max_depth),
             "bfs": {
                 "canonical_states": len(a["states"]),
@@ -1265,6 +1318,7 @@ def explore(tier, seed, report):
                 "reachable_sets_equal": m_states == u_states,
             },
             "overflow_chains": {"histories": c.executions, "end_states": len(c.states), "max_depth": c.max_depth},
+            "tape_reentry": {"histories": d.executions},
         }
     )
 
